@@ -228,7 +228,9 @@ func c03(r *eng.Run) {
 			deep += 2
 		}
 	}
-	for _, num := range []string{"1e308", "1e309", "-1e309", "1.7976931348623157e308", "1.7976931348623159e308", "-0", "0e999", "1e-999"} {
+	for _, num := range []string{"1e308", "1e309", "-1e309", "1.7976931348623157e308", "1.7976931348623159e308", "-0", "0e999", "1e-999",
+		"9007199254740993", "9007199254740993.0000000000000000000001", "4503599627370497.5", "-0.0000000000000000000000", "4.9406564584124654e-324", "2.4703282292062328e-324", "123456789012345678e-27", "-9.8233876e44", "1e348", "1e-348",
+		"9007199254740993." + strings.Repeat("0", 790) + "1", "9007199254740993." + strings.Repeat("0", 782) + "1", "9007199254740993." + strings.Repeat("0", 783) + "1", "9007199254740993." + strings.Repeat("0", 784) + "1", "9007199254740993" + strings.Repeat("0", 900) + "e-900"} {
 		for _, shape := range []string{"%s", "[%s]", `{"a":%s}`, `[1,%s,2]`, `{"a":[%s],"b":%s}`, `[[%s]]`} {
 			one(strings.ReplaceAll(shape, "%s", num), "number-range")
 		}
